@@ -4,7 +4,12 @@ Implementation: prometheus_client.exposition.write_to_textfile, run against a re
 `exposition.open`, `exposition.os` and `exposition.threading` replaced (module attributes, for the duration of one
 case) by recording / faulting / turn-taking proxies.  After EVERY proxied I/O call (open, each collector, each write,
 close, rename/replace, exists, remove) the directory listing and the target's content are read back from the real
-file system.  The same case is run on the extracted model (coq/model/Textfile.v) and the stutter-free sequences of
+file system.  Every OTHER function of `os` the code calls (an extra open/fsync/chmod/... around the known steps) is
+recorded as a step of its own, snapshotted and given faults too (generator X picks them up by a probe run).  The target is
+spelled in every way a caller may (bare file name with the working directory changed, ./x, ../d/x, through a symbolic
+link, odd but valid names).  write() may be SHORT: the proxy handle honours the `buffering` the code asks for (default:
+an io.BufferedWriter that submits the remainder again; 0: a raw handle returning the count), and a child process under a
+real RLIMIT_FSIZE checks the same without any proxy.  The same case is run on the extracted model (coq/model/Textfile.v) and the stutter-free sequences of
 (listing, target content) plus the error that reaches each caller are compared.  The direct oracle looks only at the
 implementation's observations."""
 import errno
@@ -17,11 +22,20 @@ import sys
 import tempfile
 import threading
 import time
+import types
 
 from . import sx
 from .sx import Sym
 
-RULE = ('one call: every registry of 0-3 collectors over {yields, yields un-encodable text, raises Exception-class '
+RULE = ('the target path spelled as absolute / bare file name (cwd changed) / ./x / ../d/x / d/x / a/./x / a//x / a/in/../in/x / '
+        'through dot-ended and hidden directories / through a symlinked directory, 12 file names (trailing dot, leading dot, '
+        'space, non-ASCII, format characters, 95 characters) x every single fault; short writes (submission j accepted up to k '
+        'bytes, count returned) at every submission, alone and followed by ENOSPC / KeyboardInterrupt on the re-submitted '
+        'remainder, a second short write, a close or rename fault, held and written through; every os function the code calls '
+        'besides the modelled ones (found by a probe run per platform branch) faulted with OSError/ENOSPC (and '
+        'KeyboardInterrupt when it precedes the rename); RLIMIT_FSIZE at absolute / relative-to-the-end / random limits in a '
+        'child process (no proxies) with 30-6000 samples; '
+        'one call: every registry of 0-3 collectors over {yields, yields un-encodable text, raises Exception-class '
         'part-way, raises BaseException-only part-way} x target absent/present x no fault or one fault at each of open, '
         'write, close, rename (both classes, with and without a partial write), then double faults reaching the handler '
         '(exists/remove/close), os.name=nt, unbuffered handles, stale temporaries, split writes are picked up from the '
@@ -30,14 +44,22 @@ RULE = ('one call: every registry of 0-3 collectors over {yields, yields un-enco
         'random faults, three writers; 1-3 child processes looping over write_to_textfile and SIGKILLed at a random instant with a '
         'reader polling the target; 2-4 real threads (no proxies) writing concurrently with a polling reader. '
         'non-trivial = a fault fired, or more than one writer, or a kill')
-TRUSTED = ['rename(2)/os.replace replace the destination atomically (model: os_move is ONE transition); checked only by the '
+TRUSTED = ['the temporary path is the spelled path plus a suffix without "/": path resolution of the two agrees up to the last '
+           'component (proved: C18_tmp_same_directory); the model works on base names in the one directory observed',
+           'an error absorbed at a call the property does not list (an extra best-effort syscall) is accepted when the call '
+           'then returns with the complete exposition installed and nothing left behind; KeyboardInterrupt is not injected '
+           'at such a call after the rename (same exclusion as the asynchronous-interrupt line below)',
+           'rename(2)/os.replace replace the destination atomically (model: os_move is ONE transition); checked only by the '
            'SIGKILL/reader cases',
            'concurrently running writers have distinct (os.getpid(), threading.current_thread().ident) pairs',
            'an injected fault is raised INSTEAD of the step\'s effect (except the stated partial write); an asynchronous '
            'KeyboardInterrupt delivered after rename(2) completed but before the call returns is outside the model',
            'the interposition proxies (exposition.open / .os / .threading as module attributes) and the turn-taking scheduler',
            'Windows semantics of os.rename (fails if the destination exists) are emulated by the proxy when os.name is set to nt']
-ASSUMPTIONS = ['the exposition of a registry is the concatenation of its collectors\' expositions (validated by every case)',
+ASSUMPTIONS = ['a short write is an event of the submission (write:j) whatever the buffering: the accepted prefix reaches the '
+               'buffer or the disk, an io.BufferedWriter submits the remainder again as submission j+1 (CPython '
+               '_bufferedwriter_flush_unlocked loops until everything is written or an error is raised)',
+               'the exposition of a registry is the concatenation of its collectors\' expositions (validated by every case)',
                'data written through the handle is observable on disk only after flush/close when buffered; the proxy '
                'handle buffers everything until close (io.BufferedWriter does so below its buffer size) or nothing']
 TIME_BUDGET = {'quick': 110, 'thorough': 1200}
@@ -181,7 +203,12 @@ class WriterState:
         self.spec = spec
         self.plan = dict(spec.get('plan') or {})
         self.nwrites = 0
-        self.write_sizes = []
+        self.write_sizes = []    # sizes of the FRESH submissions (not the re-submitted remainders of short writes)
+        self.shorted = []        # [(key, accepted, given)]  short writes that fired
+        self.raw = False         # the code asked for an unbuffered handle (buffering=0)
+        self.dropped = False     # the remainder of a short write was never submitted again
+        self.xcount = {}
+        self.xops = []           # keys of the calls the model does not know ('os.fsync@0', 'flush@0', ...)
         self.fired = []          # [(key, exception object)]
         self.natural = []        # [(key, exception object)]  raised by the real file system
         self.done = False
@@ -194,7 +221,7 @@ class Control:
     def __init__(self, case, d):
         self.case = case
         self.dir = d
-        self.target = os.path.join(d, TARGET)
+        self.target = os.path.join(d, case.get('name') or TARGET)
         self.writers = [WriterState(i, w) for i, w in enumerate(case['writers'])]
         self.by_thread = {}
         self.threaded = len(self.writers) > 1
@@ -225,18 +252,32 @@ class Control:
             raise Hang('writer %d never got its turn' % st.idx)
         st.granted = True
 
-    def op(self, kind, do, partial=None, modelled=True):
-        st = self.who()
+    def op(self, kind, do, partial=None, modelled=True, short=None, size=None):
+        """one I/O call of writer `who()`: take the turn, apply the planned fault (raise instead of the effect, with an
+        optional partial effect; or a SHORT write: only a prefix is accepted and its length returned), snapshot.
+        modelled=False: a call the model does not know (an extra syscall): same treatment, key `kind@n`."""
+        try:
+            st = self.who()
+        except KeyError:                 # not one of the writers (a helper thread of the code): no interposition
+            return do()
         self.turn(st)
         key = kind
         if kind == 'write':
             key = 'write:%d' % st.nwrites
             st.nwrites += 1
         if not modelled:
+            n = st.xcount.get(kind, 0)
+            st.xcount[kind] = n + 1
+            key = '%s@%d' % (kind, n)
+            st.xops.append(key)
             self.unmodelled.append(kind)
-            return do()
         flt = st.plan.pop(key, None)
         try:
+            if flt is not None and flt[0] == 'SHORT':
+                if short is not None and size is not None and 0 <= flt[1] < size:
+                    st.shorted.append((key, flt[1], size))
+                    return short(flt[1])
+                flt = None
             if flt is not None:
                 e = make_exc(flt[0])
                 st.fired.append((key, e))
@@ -252,6 +293,9 @@ class Control:
             names, t = self.snapshot()
             self.steps.append([st.idx, key, names, t])
 
+    def xop(self, name, do, short=None, size=None):
+        return self.op(name, do, modelled=False, short=short, size=size)
+
     def collect_op(self, i, exc):
         st = self.who()
         self.turn(st)
@@ -263,14 +307,22 @@ class Control:
 
 
 class PFile:
-    """Stand-in for the object returned by open(path, 'wb'): holds everything until flush/close when buffered."""
+    """Stand-in for the object returned by open(path, 'wb'[, buffering]).
+    Default buffering (what the code under test asks for today): an io.BufferedWriter - write() takes everything and
+    returns len(data); when the OS accepts only a prefix (SHORT write) the remainder is submitted again, and again,
+    until it is accepted or an error is raised.  Data is held until close (`buf`, small data) or written through.
+    buffering=0: a raw io.FileIO - ONE submission per write(), the count the OS accepted is the return value."""
 
-    def __init__(self, ctl, st, path):
+    def __init__(self, ctl, st, path, mode='wb', rawmode=False):
         self.ctl, self.st, self.name = ctl, st, path
-        self.raw = _real_open(path, 'wb', buffering=0)
+        self.raw = _real_open(path, mode, buffering=0)
         self.buf = bytearray()
         self.closed = False
-        self.buffered = st.spec.get('buf', True)
+        self.rawmode = rawmode
+        self.buffered = st.spec.get('buf', True) and not rawmode
+        self.rest = None          # raw handle: what a short write left over (the caller is expected to submit it again)
+        if rawmode:
+            st.raw = True
 
     def _accept(self, data):
         if self.buffered:
@@ -278,13 +330,41 @@ class PFile:
         else:
             self.raw.write(data)
 
+    def _submit(self, data, fresh):
+        if fresh:
+            self.st.write_sizes.append(len(data))
+
+        def full():
+            self._accept(data)
+            return len(data)
+
+        def short(k):
+            self._accept(data[:k])
+            return k
+        return self.ctl.op('write', full, lambda k: self._accept(data[:k]), short=short, size=len(data))
+
     def write(self, data):
         data = bytes(data)
         if self.closed:
             raise ValueError('write to closed file')
-        self.st.write_sizes.append(len(data))
-        self.ctl.op('write', lambda: self._accept(data), lambda k: self._accept(data[:k]))
-        return len(data)
+        if self.rawmode:
+            fresh = True
+            if self.rest is not None:
+                if data == self.rest:
+                    fresh = False
+                else:
+                    self.st.dropped = True
+                self.rest = None
+            n = self._submit(data, fresh)
+            if n < len(data):
+                self.rest = data[n:]
+            return n
+        rest, fresh = data, True
+        while True:
+            n = self._submit(rest, fresh)
+            rest, fresh = rest[n:], False
+            if not rest:
+                return len(data)
 
     def _flush_raw(self, k=None):
         data = bytes(self.buf if k is None else self.buf[:k])
@@ -293,7 +373,7 @@ class PFile:
             self.raw.write(data)
 
     def flush(self):
-        self.ctl.op('flush', self._flush_raw, modelled=False)
+        self.ctl.xop('flush', self._flush_raw)
 
     def fileno(self):
         return self.raw.fileno()
@@ -302,6 +382,8 @@ class PFile:
         if self.closed:
             return
         self.closed = True
+        if self.rest is not None:
+            self.st.dropped = True
 
         def do():
             try:
@@ -373,7 +455,27 @@ class OsProxy:
     unlink = remove
 
     def __getattr__(self, n):
-        return getattr(os, n)
+        v = getattr(os, n)
+        if n in OS_PURE or n.startswith('_') or not isinstance(v, (types.BuiltinFunctionType, types.FunctionType)):
+            return v
+        ctl = self._ctl
+
+        def call(*a, **kw):
+            short = size = None
+            if n == 'write' and len(a) == 2 and not kw:         # os.write(fd, data): may be short as well
+                data = bytes(a[1])
+                size = len(data)
+
+                def short(k):
+                    return v(a[0], data[:k])
+            return ctl.xop('os.' + n, lambda: v(*a, **kw), short=short, size=size)
+        return call
+
+
+OS_PURE = frozenset('getpid getppid fspath fsencode fsdecode getcwd getcwdb getenv getenvb strerror urandom cpu_count '
+                    'getuid geteuid getgid getegid getlogin uname times get_terminal_size get_exec_path getpgrp '
+                    'device_encoding get_inheritable get_blocking isatty major minor makedev WEXITSTATUS WIFEXITED '
+                    'WIFSIGNALED WTERMSIG getloadavg sched_getaffinity sysconf confstr'.split())
 
 
 class _FakeThread:
@@ -405,12 +507,12 @@ class ThreadingProxy:
 
 
 def make_open(ctl):
-    def p_open(path, mode='r', *a, **kw):
-        if 'w' in mode and 'b' in mode:
+    def p_open(path, mode='r', buffering=-1, *a, **kw):
+        if 'b' in mode and any(c in mode for c in 'wax') and not isinstance(path, int):
             st = ctl.who()
-            return ctl.op('open', lambda: PFile(ctl, st, os.fspath(path)))
+            return ctl.op('open', lambda: PFile(ctl, st, os.fspath(path), mode, buffering == 0))
         ctl.unmodelled.append('open:' + mode)
-        return _real_open(path, mode, *a, **kw)
+        return _real_open(path, mode, buffering, *a, **kw)
     return p_open
 
 
@@ -423,8 +525,52 @@ def s2b(s):
     return None if s is None else s.encode('latin-1')
 
 
-def tmp_of(w):
-    return '%s.%d.%d' % (TARGET, w['pid'], w['tid'])
+def tmp_of(w, name=None):
+    return '%s.%d.%d' % (name or TARGET, w['pid'], w['tid'])
+
+
+# ---------------------------------------------------------------- how the caller spells the target path
+SHAPES = ('abs', 'bare', 'dot', 'dotdot', 'rel', 'absdot', 'dblslash', 'dirdot', 'deep', 'symdir', 'dotdotabs')
+NAMES = (TARGET, 'metrics.prom.', '.prom', 'm', 'm\u00e9triques.prom', 'a b.prom', '-x.prom', '~x.prom~', '%d.{0}.prom',
+         'metrics.PROM', 'x..prom', 'prom.' + 'y' * 90)
+
+
+def layout(case, d):
+    """-> (directory observed = the one the target lives in, the path argument as the caller spells it, cwd or None)"""
+    shape = case.get('path') or 'abs'
+    name = case.get('name') or TARGET
+    if shape == 'abs':
+        return d, os.path.join(d, name), None
+    if shape == 'bare':                       # no directory component at all: os.path.dirname(path) == ''
+        return d, name, d
+    if shape == 'dot':
+        return d, './' + name, d
+    if shape == 'dotdot':
+        return d, '../' + os.path.basename(d) + '/' + name, d
+    if shape == 'rel':
+        return d, os.path.basename(d) + '/' + name, os.path.dirname(d)
+    if shape == 'absdot':
+        return d, d + '/./' + name, None
+    if shape == 'dblslash':
+        return d, d + '//' + name, None
+    if shape == 'dotdotabs':
+        sub = os.path.join(d, 'in')
+        os.mkdir(sub)
+        return sub, d + '/in/../in/' + name, None
+    if shape == 'dirdot':                     # a directory component ending in a dot, and one starting with one
+        sub = os.path.join(d, 'sub.', '.hid')
+        os.makedirs(sub)
+        return sub, os.path.join(sub, name), None
+    if shape == 'deep':
+        sub = os.path.join(d, 'a b', 'c.d', '\u00fc')
+        os.makedirs(sub)
+        return sub, 'a b/c.d/\u00fc/' + name, d
+    if shape == 'symdir':                     # reached through a symbolic link to the directory
+        real = os.path.join(d, 'real')
+        os.mkdir(real)
+        os.symlink('real', os.path.join(d, 'link'))
+        return real, os.path.join(d, 'link', name), None
+    raise ValueError(shape)
 
 
 _LAST = {}
@@ -432,14 +578,17 @@ _LAST = {}
 
 def run_impl(case):
     from prometheus_client import exposition as ex
-    d = tempfile.mkdtemp(prefix='case-', dir=scratch())
+    top = tempfile.mkdtemp(prefix='case-', dir=scratch())
+    cwd0 = os.getcwd()
     try:
+        d, path_arg, cwd = layout(case, top)
+        name = case.get('name') or TARGET
         old = s2b(case.get('old'))
         if old is not None:
-            with _real_open(os.path.join(d, TARGET), 'wb') as f:
+            with _real_open(os.path.join(d, name), 'wb') as f:
                 f.write(old)
         for i in case.get('stale', []):
-            with _real_open(os.path.join(d, tmp_of(case['writers'][i])), 'wb') as f:
+            with _real_open(os.path.join(d, tmp_of(case['writers'][i], name)), 'wb') as f:
                 f.write(b'stale junk from a crashed run')
         if case.get('extra'):
             with _real_open(os.path.join(d, 'other.prom'), 'wb') as f:
@@ -449,13 +598,15 @@ def run_impl(case):
         init = ctl.snapshot()
         regs = [registry_of(w['colls'], i, ctl) for i, w in enumerate(case['writers'])]
         saved = (ex.os, ex.threading)
+        if cwd is not None:
+            os.chdir(cwd)
         ex.os, ex.threading, ex.open = OsProxy(ctl), ThreadingProxy(ctl), make_open(ctl)
         hang = None
         try:
             def body(st):
                 ctl.by_thread[threading.get_ident()] = st.idx
                 try:
-                    ex.write_to_textfile(ctl.target, regs[st.idx])
+                    ex.write_to_textfile(path_arg, regs[st.idx])
                     st.result = ('return', None)
                 except Hang as e:
                     st.result = ('hang', e)
@@ -497,6 +648,7 @@ def run_impl(case):
                 del ex.open
             except AttributeError:
                 pass
+            os.chdir(cwd0)
         final = ctl.snapshot()
         outcomes = []
         for st in ctl.writers:
@@ -533,12 +685,20 @@ def run_impl(case):
             fired=[[k for k, _ in st.fired] for st in ctl.writers],
             natural=[[k for k, _ in st.natural] for st in ctl.writers],
             unmodelled=sorted(set(ctl.unmodelled)), hang=hang,
+            shorted=[[list(x) for x in st.shorted] for st in ctl.writers],
+            xops=[list(st.xops) for st in ctl.writers],
+            raw=[st.raw for st in ctl.writers], dropped=[st.dropped for st in ctl.writers],
             info=dict(splits=[st.write_sizes[:-1] for st in ctl.writers],
-                      sched=[w for w, k, _n, _t in ctl.steps]),
+                      sched=[w for w, k, _n, _t in ctl.steps if '@' not in k],
+                      path=path_arg),
         )
         return obs
     finally:
-        shutil.rmtree(d, ignore_errors=True)
+        try:
+            os.chdir(cwd0)
+        except OSError:
+            pass
+        shutil.rmtree(top, ignore_errors=True)
 
 
 # ---------------------------------------------------------------- SIGKILL cases
@@ -559,6 +719,8 @@ def expo(gen):
     from prometheus_client import generate_latest
     c = C(); c.gen = gen; r = CollectorRegistry(); r.register(c); return generate_latest(r)
 if __name__ == '__main__' and sys.argv[1] != '-':
+    if len(sys.argv) > 5 and sys.argv[5]:
+        os.chdir(sys.argv[5])
     c = C(); r = CollectorRegistry(); r.register(c)
     base = int(sys.argv[4]) * 1000000
     open(sys.argv[1] + '.ready%s' % sys.argv[4], 'w').close()
@@ -600,7 +762,10 @@ def run_kill(case):
         env = dict(os.environ)
         env.pop('PROMETHEUS_MULTIPROC_DIR', None)
         nproc = case.get('nproc', 1)
-        procs = [subprocess.Popen([sys.executable, script, target, str(n), repo, str(k)], env=env,
+        shape = case.get('path') or 'abs'
+        arg, cwd = {'abs': (target, ''), 'bare': (TARGET, wd), 'dot': ('./' + TARGET, wd),
+                    'rel': ('out/' + TARGET, d)}[shape]
+        procs = [subprocess.Popen([sys.executable, script, arg, str(n), repo, str(k), cwd], env=env,
                                   stdout=subprocess.DEVNULL, stderr=subprocess.PIPE) for k in range(nproc)]
         bad = []
         seen = set()
@@ -686,6 +851,12 @@ def run_stress(case):
         seen = set()
         stop = threading.Event()
 
+        shape = case.get('path') or 'abs'
+        arg = {'abs': target, 'bare': TARGET, 'dot': './' + TARGET}[shape]
+        cwd0 = os.getcwd()
+        if shape != 'abs':
+            os.chdir(d)
+
         def writer(k):
             c = C()
             r = CollectorRegistry()
@@ -693,7 +864,7 @@ def run_stress(case):
             try:
                 for g in range(1, case['iters'] + 1):
                     c.gen = k * 1000000 + g
-                    exposition.write_to_textfile(target, r)
+                    exposition.write_to_textfile(arg, r)
             except BaseException as e:        # noqa
                 errors.append('%s: %s' % (type(e).__name__, e))
 
@@ -725,6 +896,7 @@ def run_stress(case):
             t.join(timeout=120)
         stop.set()
         rd.join(timeout=10)
+        os.chdir(cwd0)
         try:
             with _real_open(target, 'rb') as f:
                 data = f.read()
@@ -736,7 +908,86 @@ def run_stress(case):
         return dict(canon=None, stress=True, bad=bad[:3], errors=errors[:3], generations=len(seen),
                     leftover=sorted(x for x in os.listdir(d) if x != TARGET))
     finally:
+        try:
+            os.chdir(cwd0)
+        except (OSError, NameError):
+            pass
         shutil.rmtree(d, ignore_errors=True)
+
+
+# ---------------------------------------------------------------- a real resource limit: RLIMIT_FSIZE in a child process
+LIMIT_CHILD = r'''
+import json, os, resource, sys
+sys.path.insert(0, sys.argv[1])
+from prometheus_client import CollectorRegistry, Gauge, generate_latest, write_to_textfile
+spec = json.loads(sys.argv[2])
+os.chdir(spec['cwd'])
+registry = CollectorRegistry()
+g = Gauge('limited_value', 'A value with many children.', ['idx'], registry=registry)
+for i in range(spec['n']):
+    g.labels(str(i)).set(i)
+new = generate_latest(registry)
+old = b'# previous complete content\nold_metric 1.0\n'
+soft, hard = resource.getrlimit(resource.RLIMIT_FSIZE)
+out = []
+for limit in spec['limits']:
+    if limit < 0:
+        limit = max(0, len(new) + limit)          # -k: k bytes short of the exposition
+    with open(spec['full'], 'wb') as f:
+        f.write(old)
+    raised = None
+    resource.setrlimit(resource.RLIMIT_FSIZE, (limit, hard))
+    try:
+        try:
+            write_to_textfile(spec['arg'], registry)
+        except BaseException as e:
+            raised = type(e).__name__
+    finally:
+        resource.setrlimit(resource.RLIMIT_FSIZE, (soft, hard))
+    with open(spec['full'], 'rb') as f:
+        content = f.read()
+    if content == new:
+        t = 'new'
+    elif content == old:
+        t = 'old'
+    elif new.startswith(content):
+        t = 'a PREFIX of the new exposition (%d of %d bytes)' % (len(content), len(new))
+    else:
+        t = '%d foreign bytes' % len(content)
+    stray = sorted(x for x in os.listdir(os.path.dirname(spec['full'])) if x != os.path.basename(spec['full']))
+    for x in stray:
+        os.remove(os.path.join(os.path.dirname(spec['full']), x))
+    out.append(dict(limit=limit, raised=raised, target=t, stray=stray))
+print(json.dumps(dict(size=len(new), results=out)))
+'''
+
+
+def run_limit(case):
+    top = tempfile.mkdtemp(prefix='limit-', dir=scratch())
+    repo = os.environ.get('VERIF_REPO', '/repo')
+    try:
+        d = os.path.join(top, 'out')
+        os.mkdir(d)
+        full = os.path.join(d, TARGET)
+        shape = case.get('path') or 'abs'
+        arg, cwd = {'abs': (full, top), 'bare': (TARGET, d), 'dot': ('./' + TARGET, d), 'rel': ('out/' + TARGET, top)}[shape]
+        script = os.path.join(top, 'child.py')
+        with _real_open(script, 'w') as f:
+            f.write(LIMIT_CHILD)
+        env = dict(os.environ)
+        env.pop('PROMETHEUS_MULTIPROC_DIR', None)
+        spec = dict(n=case['n'], limits=case['limits'], full=full, arg=arg, cwd=cwd)
+        p = subprocess.run([sys.executable, script, repo, json.dumps(spec)], env=env, stdout=subprocess.PIPE,
+                           stderr=subprocess.PIPE, timeout=120)
+        try:
+            r = json.loads(p.stdout.decode('utf-8'))
+        except ValueError:
+            r = dict(size=0, results=[])
+            r['stderr'] = 'exit %s: %s' % (p.returncode, p.stderr.decode('utf-8', 'replace')[-400:])
+        r['canon'] = None
+        return r
+    finally:
+        shutil.rmtree(top, ignore_errors=True)
 
 
 def impl(case):
@@ -744,6 +995,8 @@ def impl(case):
         return run_kill(case)
     if case.get('kind') == 'stress':
         return run_stress(case)
+    if case.get('kind') == 'limit':
+        return run_limit(case)
     obs = run_impl(case)
     _LAST.clear()
     _LAST[json.dumps(case, sort_keys=True)] = obs
@@ -765,8 +1018,10 @@ def dec_site(a):
 
 
 def model(m, case):
-    if case.get('kind') in ('kill', 'stress'):
+    if case.get('kind') in ('kill', 'stress', 'limit'):
         return None
+    if any('@' in k for w in case['writers'] for k in (w.get('plan') or {})):
+        return None                          # a fault at a call the model does not have: the direct oracle only
     key = json.dumps(case, sort_keys=True)
     obs = _LAST.get(key) or run_impl(case)
     info = obs['info']
@@ -780,19 +1035,24 @@ def model(m, case):
                 colls.append(Sym('B'))
             else:
                 colls.append((Sym('R'), Sym(cls_of(sp[1]))))
-        plan = [(enc_site(k), Sym(cls_of(v[0])), int(v[1])) for k, v in sorted((w.get('plan') or {}).items())]
-        ws.append((w['pid'], w['tid'], bool(w.get('nt')), bool(w.get('buf', True)), colls,
-                   [int(x) for x in info['splits'][i]], plan, True))
+        items = sorted((w.get('plan') or {}).items())
+        plan = [(enc_site(k), Sym(cls_of(v[0])), int(v[1])) for k, v in items if v[0] != 'SHORT']
+        shorts = [(int(k.split(':')[1]), int(v[1])) for k, v in items if v[0] == 'SHORT' and k.startswith('write:')]
+        # picked up from the code: an unbuffered handle (buffering=0) writes through; whether the remainder of a short
+        # write is submitted again (io.BufferedWriter does; a raw handle leaves it to the caller)
+        ws.append((w['pid'], w['tid'], bool(w.get('nt')), bool(w.get('buf', True)) and not obs['raw'][i], colls,
+                   [int(x) for x in info['splits'][i]], plan, shorts, not obs['dropped'][i], True))
     fs0 = []
     init_names, init_t = obs['init']
+    tname = case.get('name') or TARGET
     for nme in init_names:
-        if nme == TARGET:
+        if nme == tname:
             fs0.append((nme, s2b(init_t)))
         elif nme == 'other.prom':
             fs0.append((nme, b'unrelated 1\n'))
         else:
             fs0.append((nme, b'stale junk from a crashed run'))
-    r = m.call('c18_run', TARGET, ws, fs0, [int(x) for x in info['sched']])
+    r = m.call('c18_run', info['path'], ws, fs0, [int(x) for x in info['sched']])
     trace, outs, _f = r
     seq = [[init_names, init_t]]
     for names, t in trace:
@@ -834,8 +1094,32 @@ def direct(case, obs):
         if not obs['alive_at_kill'] and obs['stderr']:
             return 'writer process died by itself: ' + obs['stderr']
         return None
+    if case.get('kind') == 'limit':
+        for r in obs['results']:
+            what = 'RLIMIT_FSIZE=%d (exposition %d bytes, path %s)' % (r['limit'], obs['size'], case.get('path') or 'abs')
+            if r['raised'] is None and r['target'] != 'new':
+                return ('%s: the call returned normally but the target holds %s: a truncated exposition was installed'
+                        % (what, r['target']))
+            if r['raised'] is not None and r['target'] != 'old':
+                return '%s: the call raised %s but the target now holds %s' % (what, r['raised'], r['target'])
+            if r['raised'] is None and r['limit'] < obs['size']:
+                return '%s: the call returned normally although the file could not be written completely' % what
+            if r['raised'] is not None and r['limit'] >= obs['size']:
+                return '%s: the call raised %s although the limit was not reached' % (what, r['raised'])
+            if r['stray']:
+                return '%s: temporary file %s left behind' % (what, r['stray'][0])
+        if obs.get('stderr'):
+            return 'the writer process failed: ' + obs['stderr']
+        return None
     if obs['hang']:
         return 'a writer blocked: ' + obs['hang']
+    tname = case.get('name') or TARGET
+    where = '' if (case.get('path') or 'abs') == 'abs' and tname == TARGET else ' [path spelled %r]' % obs['info']['path']
+    r = _direct_run(case, obs, tname)
+    return r + where if r else None
+
+
+def _direct_run(case, obs, TARGET):
     old = obs['init'][1]
     init_names = obs['init'][0]
     news = obs['news']
@@ -846,6 +1130,10 @@ def direct(case, obs):
     for k, (w, key, names, t) in enumerate(obs['steps']):
         if t not in allowed:
             what = 'absent' if t is None else ('empty' if t == '' else 'partial/foreign (%d bytes)' % len(t))
+            if t and news[w] and t != news[w] and news[w].startswith(t):
+                what = 'a PREFIX (%d of %d bytes) of the new exposition' % (len(t), len(news[w]))
+                if obs['shorted'][w]:
+                    what += ' (short write at %s: %d of %d bytes accepted)' % tuple(obs['shorted'][w][0])
             return ('after step %d (%s of writer %d) the target is %s: neither its previous content nor a complete new '
                     'exposition' % (k, key, w, what))
         if t != prev:
@@ -862,23 +1150,27 @@ def direct(case, obs):
         if any(k in HANDLER_SITES for k in fired):
             handler_fault = True
         if out is None:
-            if fired:
-                return 'writer %d: the error raised at %s did not reach the caller (call returned normally)' % (w, fired[-1])
+            # an error of a call the property does not list (an extra, best-effort syscall) may be absorbed, provided
+            # the call then returns with everything in place (checked below)
+            lost = [k for k in fired if '@' not in k]
+            if lost:
+                return 'writer %d: the error raised at %s did not reach the caller (call returned normally)' % (w, lost[-1])
             if news[w] is None:
                 return 'writer %d returned normally although its exposition cannot be produced' % w
             if installed[w] != 1 and not (news[w] == old or news.count(news[w]) > 1):
                 return 'writer %d returned normally but installed its exposition %d times' % (w, installed[w])
         else:
+            if installed[w] and not (news[w] == old or news.count(news[w]) > 1):
+                return ('writer %d: the call raised %s (at %s) but the target had already been replaced: it raises although '
+                        'the new exposition was installed' % (w, out[3], out[0]))
             if not obs['fired'][w] and news[w] is not None:
                 return ('writer %d: the call failed with %s (%s) although no fault was injected and its registry is fine'
                         % (w, out[3], out[0]))
             if not out[2]:
                 return ('writer %d: the caller received %s, which is not the error that was raised (%s)'
                         % (w, out[3], ','.join(fired) or 'none injected'))
-            if installed[w] and not (news[w] == old or news.count(news[w]) > 1):
-                return 'writer %d raised %s but the target was replaced' % (w, out[3])
     if nw == 1 and obs['outcomes'][0] is not None and obs['final'][1] != old:
-        return 'the call raised %s but the target changed' % obs['outcomes'][0][3]
+        return 'the call raised %s (at %s) but the target changed' % (obs['outcomes'][0][3], obs['outcomes'][0][0])
     if nw == 1 and obs['outcomes'][0] is None and obs['final'][1] != news[0]:
         return 'the call returned but the target does not hold the new exposition'
     if all(o is None for o in obs['outcomes']) and obs['final'][1] not in [n for n in news if n is not None]:
@@ -897,7 +1189,10 @@ def direct(case, obs):
 def nontrivial(case, obs):
     if case.get('kind') in ('kill', 'stress'):
         return obs['generations'] >= 1
-    return len(case['writers']) > 1 or any(obs['fired']) or any(obs['natural']) or 'B' in [c[0] for c in case['writers'][0]['colls']]
+    if case.get('kind') == 'limit':
+        return any(r['limit'] < obs['size'] for r in obs['results'])
+    return (len(case['writers']) > 1 or any(obs['fired']) or any(obs['natural']) or any(obs['shorted'])
+            or 'B' in [c[0] for c in case['writers'][0]['colls']])
 
 
 def classify(case, obs):
@@ -907,8 +1202,18 @@ def classify(case, obs):
         return ['kill', 'kill_procs=%d' % case.get('nproc', 1),
                 'kill_generations_seen>=2' if obs['generations'] >= 2 else 'kill_generations_seen<2',
                 'kill_writers_seen=%d' % obs.get('writers_seen', 0)]
-    out = ['writers=%d' % len(case['writers']), 'old=' + ('present' if case.get('old') is not None else 'absent')]
+    if case.get('kind') == 'limit':
+        return ['limit', 'limit_path=' + (case.get('path') or 'abs')] + [
+            'limit_outcome=' + ('return' if r['raised'] is None else 'raise') for r in obs['results']]
+    out = ['writers=%d' % len(case['writers']), 'old=' + ('present' if case.get('old') is not None else 'absent'),
+           'path=' + (case.get('path') or 'abs'), 'name=' + ('default' if (case.get('name') or TARGET) == TARGET else 'unusual')]
     for w, wr in enumerate(case['writers']):
+        for k, a, n in obs['shorted'][w]:
+            out.append('short@' + k.split(':')[0].split('@')[0])
+        if obs['raw'][w]:
+            out.append('raw-handle')
+        if obs['dropped'][w]:
+            out.append('short-remainder-dropped')
         for k in obs['fired'][w]:
             out.append('fault@' + k.split(':')[0])
         for k in obs['natural'][w]:
@@ -918,7 +1223,7 @@ def classify(case, obs):
         if wr.get('nt'):
             out.append('nt')
         if not wr.get('buf', True):
-            out.append('unbuffered')
+            out.append('write-through')
         out.append('collectors=%d' % len(wr['colls']))
     if case.get('stale'):
         out.append('stale-tmp')
@@ -974,7 +1279,42 @@ def rand_plan(rng, p=0.5, handler=0.3):
             plan[rng.choice(['exists', 'remove', 'close'])] = [rng.choice(EXC_NAMES + BASE_NAMES), rng.choice([0, 3])]
     elif rng.random() < 0.1:
         plan[rng.choice(['exists', 'remove'])] = ['OSError', 0]
+    if rng.random() < 0.3:                    # short writes: submission j is accepted only up to k bytes
+        for j in rng.sample([0, 0, 1, 2], rng.choice([1, 1, 2])):
+            if 'write:%d' % j not in plan:
+                plan['write:%d' % j] = ['SHORT', rng.choice([1, 2, 9, 40, 200])]
     return plan
+
+
+def short_plans():
+    """short writes at every submission, alone and followed by each kind of error"""
+    for k in (1, 7, 60, 10 ** 6):
+        yield {'write:0': ['SHORT', k]}
+        for name in ('ENOSPC', 'KeyboardInterrupt'):
+            yield {'write:0': ['SHORT', k], 'write:1': [name, 0]}         # the re-submitted remainder fails
+        yield {'write:0': ['SHORT', k], 'write:1': ['SHORT', 3]}
+        yield {'write:0': ['SHORT', k], 'write:1': ['SHORT', 3], 'write:2': ['OSError', 2]}
+        yield {'write:0': ['SHORT', k], 'close': ['OSError', 5]}
+        yield {'write:0': ['SHORT', k], 'rename': ['OSError', 0]}
+    yield {'write:0': ['SHORT', 0]}
+
+
+def probe_unknown_calls():
+    """calls of the code that the model does not have (extra syscalls around the known steps), found by running it once
+    per platform branch: [(nt, key, after_rename)]"""
+    found = []
+    for nt in (False, True):
+        try:
+            obs = run_impl(dict(kind='run', old=OLD, writers=[W(colls=[['Y', 'a', 1]], nt=nt)]))
+        except Exception:
+            continue
+        renamed = False
+        for w, key, _names, _t in obs['steps']:
+            if key == 'rename':
+                renamed = True
+            if '@' in key:
+                found.append((nt, key, renamed))
+    return found
 
 
 def interleavings(a, b):
@@ -1003,11 +1343,47 @@ def two_ids(rng, flavour):
 
 def cases(ctx):
     rng = ctx.rng
+    # --- X: calls the model does not know (picked up from the code): a fault at each of them.  An error of the
+    # system-call kind everywhere; an asynchronous one (KeyboardInterrupt) only before the rename (see TRUSTED)
+    for nt, key, after in probe_unknown_calls():
+        for name in (('OSError', 'ENOSPC') if after else ('OSError', 'KeyboardInterrupt')):
+            for old in (None, OLD):
+                for shape in ('abs', 'bare'):
+                    yield dict(kind='run', old=old, path=shape, writers=[W(colls=[['Y', 'a', 1]], plan={key: [name, 0]}, nt=nt)])
+        if key.startswith('os.write@'):
+            for k in (1, 9):
+                yield dict(kind='run', old=OLD, writers=[W(colls=[['Y', 'a', 1]], plan={key: ['SHORT', k]}, nt=nt)])
     # --- A: one writer, exhaustive small slice
     for colls in coll_lists(2):
         for old in (None, OLD):
             for plan in single_plans():
                 yield dict(kind='run', old=old, writers=[W(colls=colls, plan=plan)])
+    # --- P: every spelling of the target path x every single fault; unusual but valid file names
+    for shape in SHAPES:
+        for old in (None, OLD):
+            for plan in single_plans():
+                yield dict(kind='run', old=old, path=shape, writers=[W(colls=[['Y', 'a', 1]], plan=plan)])
+    for colls in coll_lists(1):
+        for old in (None, OLD):
+            for plan in single_plans():
+                yield dict(kind='run', old=old, path='bare', writers=[W(colls=colls, plan=plan, nt=bool(len(plan) % 2 and old))])
+    for name in NAMES[1:]:
+        for shape in ('abs', 'bare', 'dot'):
+            for old in (None, OLD):
+                for plan in ({}, {'close': ['OSError', 3]}, {'rename': ['KeyboardInterrupt', 0]}):
+                    yield dict(kind='run', old=old, path=shape, name=name, writers=[W(colls=[['Y', 'a', 1]], plan=plan)])
+    # --- S: short writes (the OS accepts a prefix and says so) at every submission, alone and followed by an error
+    for colls in ([['Y', 'a', 1]], [['Y', 'a', 1], ['Y', 'b', 2]], []):
+        for old in (None, OLD):
+            for buf in (True, False):
+                for plan in short_plans():
+                    yield dict(kind='run', old=old, path=rng.choice(['abs', 'abs', 'bare']),
+                               writers=[W(colls=colls, plan=plan, buf=buf)])
+    # --- L: a real resource limit (RLIMIT_FSIZE) in a child process: the kernel cuts the write short, then EFBIG
+    for i in range(ctx.n(8, 80)):
+        n = rng.choice([30, 400, 6000])
+        limits = rng.sample([0, 1, 100, 4096, 8192, 65536, 100001, -1, -2, -500, 10 ** 9], 3) + [rng.randrange(0, 40 * n)]
+        yield dict(kind='limit', n=n, limits=limits, path=rng.choice(['abs', 'bare', 'dot', 'rel']), id=i)
     # every exception class once, at a collector and at an I/O step
     for name in EXC_NAMES + BASE_NAMES:
         yield dict(kind='run', old=OLD, writers=[W(colls=[['Y', 'a', 2], ['R', name, 1], ['Y', 'b', 1]])])
@@ -1045,8 +1421,15 @@ def cases(ctx):
             for sched in interleavings(5, 5):
                 if flavour == 'procs' and old is None and rng.random() < 0.5 and not ctx.thorough:
                     continue
-                yield dict(kind='run', old=old, sched=sched,
+                yield dict(kind='run', old=old, sched=sched, path=rng.choice(['abs', 'abs', 'bare', 'dot', 'rel']),
                            writers=[W(p0, t0, [['Y', 'a', 1]]), W(p1, t1, [['Y', 'b', 2]])])
+    # a short write (retried) in one of two writers: one more step, all interleavings
+    (p0, t0), (p1, t1) = two_ids(rng, 'threads')
+    for sched in interleavings(6, 5):
+        if not ctx.thorough and rng.random() < 0.5:
+            continue
+        yield dict(kind='run', old=OLD, sched=sched, path=rng.choice(['abs', 'bare']),
+                   writers=[W(p0, t0, [['Y', 'a', 1]], {'write:0': ['SHORT', 5]}, buf=False), W(p1, t1, [['Y', 'b', 2]])])
     # one faulted writer against a clean one, all interleavings of (its shorter run) x 5
     for plan0, colls0, n0 in (({'close': ['OSError', 2]}, [['Y', 'a', 1]], 6), ({}, [['R', 'CustomExc', 0]], 5),
                               ({'rename': ['ENOSPC', 0]}, [['Y', 'a', 1]], 7), ({}, [['R', 'SystemExit', 1]], 5)):
@@ -1059,16 +1442,16 @@ def cases(ctx):
     # --- E: SIGKILL with a polling reader (few in the quick tier)
     for i in range(ctx.n(6, 250)):
         yield dict(kind='kill', n=rng.choice([50, 400, 3000]), delay_ms=rng.choice([1, 3, 10, 30, 60]) + rng.randrange(0, 10),
-                   old=rng.random() < 0.7, id=i, nproc=rng.choice([1, 1, 2, 3]))
+                   old=rng.random() < 0.7, id=i, nproc=rng.choice([1, 1, 2, 3]), path=rng.choice(['abs', 'bare', 'dot', 'rel']))
     for i in range(ctx.n(4, 120)):
         yield dict(kind='stress', n=rng.choice([20, 300, 2000]), threads=rng.choice([2, 3, 4]), iters=rng.choice([10, 25]),
-                   old=rng.random() < 0.5, id=i)
+                   old=rng.random() < 0.5, id=i, path=rng.choice(['abs', 'bare', 'dot']))
     # --- F: random
     for i in range(ctx.n(700, 80000)):
         r = rng.random()
         if r < 0.45:
             yield dict(kind='run', old=rng.choice([None, OLD, '', 'x']), stale=rng.choice([[], [], [0]]),
-                       extra=rng.random() < 0.2,
+                       extra=rng.random() < 0.2, path=rng.choice(SHAPES), name=rng.choice(NAMES + (TARGET,) * 12),
                        writers=[W(rng.randrange(1, 10 ** 6), rng.randrange(1, 2 ** 47), rand_colls(rng), rand_plan(rng),
                                   nt=rng.random() < 0.25, buf=rng.random() < 0.7)])
         else:
@@ -1078,7 +1461,8 @@ def cases(ctx):
             ws = [W(ids[k][0], ids[k][1], rand_colls(rng, 0.15, 2), rand_plan(rng, 0.25, 0.2),
                     nt=rng.random() < 0.15, buf=rng.random() < 0.7) for k in range(nwr)]
             sched = [rng.randrange(nwr) for _ in range(rng.randrange(0, 22))]
-            yield dict(kind='run', old=rng.choice([None, OLD]), stale=rng.choice([[], [], [1]]), sched=sched, writers=ws)
+            yield dict(kind='run', old=rng.choice([None, OLD]), stale=rng.choice([[], [], [1]]), sched=sched, writers=ws,
+                       path=rng.choice(SHAPES), name=rng.choice(NAMES + (TARGET,) * 12))
 
 
 def neighbours(case):
@@ -1094,9 +1478,18 @@ def neighbours(case):
                 c = json.loads(json.dumps(case))
                 c['writers'][w]['plan'] = {site: [name, 1]}
                 yield c
+        for k in (1, 6):
+            c = json.loads(json.dumps(case))
+            c['writers'][w]['plan'] = {'write:0': ['SHORT', k]}
+            yield c
     c = json.loads(json.dumps(case))
     c['old'] = None if case.get('old') is not None else OLD
     yield c
+    for shape in ('bare', 'dot', 'rel'):
+        if (case.get('path') or 'abs') != shape:
+            c = json.loads(json.dumps(case))
+            c['path'] = shape
+            yield c
 
 
 def shrinks(case):
@@ -1138,3 +1531,13 @@ def shrinks(case):
         c['stale'] = []
         c['extra'] = False
         yield c
+    if (case.get('name') or TARGET) != TARGET:
+        c = cp()
+        c['name'] = TARGET
+        yield c
+    if (case.get('path') or 'abs') != 'abs':
+        for shape in ('abs', 'bare'):
+            if case.get('path') != shape:
+                c = cp()
+                c['path'] = shape
+                yield c
